@@ -13,6 +13,8 @@ import (
 
 func init() {
 	register(&PropertyCheck{ID: "C12", Level: "other", Run: checkC12, Canaries: []Canary{
+		{Name: "adv6-C2-remove-will-clears-clean-start", Rule: "R12.7", Where: "RemoveWill", Edits: []Edit{{"connect.go", "\treturn uint32(p.willDelayInterval)\n}\n", "\treturn uint32(p.willDelayInterval)\n}\n\n// RemoveWill removes a will message set earlier, e.g. when a prepared\n// connect packet is reused for a session that must not leave one.\nfunc (p *Connect) RemoveWill() {\n\tp.will = nil\n\tp.willPayload = nil\n\t// will flag, will QoS and will retain go, the credentials stay\n\tp.flags &= bits(UsernameFlag | PasswordFlag)\n}\n"}}},
+		{Name: "adv6-C1-set-credentials-skips-empty-arguments", Rule: "R12.7", Where: "SetCredentials", Edits: []Edit{{"connect.go", "func (p *Connect) Password() []byte { return p.password }\n", "func (p *Connect) Password() []byte { return p.password }\n\n// SetCredentials sets the user name and the password in one call, a\n// shorthand for SetUsername followed by SetPassword. Empty values are\n// not announced in the flags.\nfunc (p *Connect) SetCredentials(username string, password []byte) {\n\tif len(username) > 0 {\n\t\tp.SetUsername(username)\n\t}\n\tif len(password) > 0 {\n\t\tp.SetPassword(password)\n\t}\n}\n"}}},
 		{Name: "remove-will-clears-everything", Silent: true, Edits: []Edit{{"connect.go", "\treturn uint32(p.willDelayInterval)\n}\n", "\treturn uint32(p.willDelayInterval)\n}\n\n// RemoveWill removes a will message set earlier, e.g. when a prepared\n// connect packet is reused for a session that must not leave one.\nfunc (p *Connect) RemoveWill() {\n\tp.flags &^= bits(WillFlag | WillRetain | WillQoS1 | WillQoS2)\n\tp.willPayload = nil\n\tp.will = nil\n\tp.willDelayInterval = 0\n}\n"}}},
 		{Name: "adv5-D2-remove-will-leaves-qos-and-retain", Rule: "R12.7", Where: "RemoveWill", Edits: []Edit{{"connect.go", "\treturn uint32(p.willDelayInterval)\n}\n", "\treturn uint32(p.willDelayInterval)\n}\n\n// RemoveWill removes a will message set earlier, e.g. when a prepared\n// connect packet is reused for a session that must not leave one.\nfunc (p *Connect) RemoveWill() {\n\tp.flags &^= bits(WillFlag)\n\tp.willPayload = nil\n}\n"}}},
 		{Name: "adv5-D1-set-credentials-clears-the-other-flags", Rule: "R12.7", Where: "SetCredentials", Edits: []Edit{{"connect.go", "func (p *Connect) Password() []byte { return p.password }\n", "func (p *Connect) Password() []byte { return p.password }\n\n// SetCredentials sets the user name and the password in one call,\n// both are optional.\nfunc (p *Connect) SetCredentials(username string, password []byte) {\n\tp.username = wstring(username)\n\tif len(username) == 0 {\n\t\tp.username = nil\n\t}\n\tp.password = password\n\tp.flags &= bits(UsernameFlag | PasswordFlag) // reset\n\tp.flags.toggle(UsernameFlag, len(p.username) > 0)\n\tp.flags.toggle(PasswordFlag, len(p.password) > 0)\n}\n"}}},
@@ -702,16 +704,75 @@ func checkMultiParamMutators(p *Prog, c *Check) {
 					continue
 				}
 				bad := ""
-				if len(own) > 0 {
+				{
 					var keys []string
 					for k := range a1 {
 						keys = append(keys, k)
 					}
 					sort.Strings(keys)
+					// a mutator that does nothing on a fresh packet (Remove…, Clear…): the fields it names are those whose
+					// accessor carries a word of its name (RemoveWill: Will, WillDelayInterval …)
+					named := func(acc string) bool {
+						for _, w := range camelWords(m)[1:] {
+							if len(w) >= 3 && strings.Contains(acc, w) {
+								return true
+							}
+						}
+						return false
+					}
+					anyNamed := false
 					for _, k := range keys {
-						if a0[k] != a1[k] && !own[k] {
+						if named(k) {
+							anyNamed = true
+						}
+					}
+					for _, k := range keys {
+						if a0[k] == a1[k] {
+							continue
+						}
+						switch {
+						case len(own) > 0 && !own[k]:
 							bad = fmt.Sprintf("the call changes %s (%s → %s), which it does not touch on a fresh packet: a field not named by the call is disturbed", k, a0[k], a1[k])
+						case len(own) == 0 && anyNamed && !named(k):
+							bad = fmt.Sprintf("the call changes %s (%s → %s), an accessor its name does not mention (it changes nothing on a fresh packet): a field not named by the call is disturbed", k, a0[k], a1[k])
+						}
+						if bad != "" {
 							break
+						}
+					}
+				}
+				// what the mutator sets does not depend on what was there before (last write wins): with all arguments
+				// given, and with each argument in turn zero, its own accessors show the same after the call on this
+				// state as after the call on a fresh packet
+				if bad == "" && len(own) > 0 {
+					nparams := 0
+					if mf := p.Method(tn, m); mf != nil {
+						nparams = mf.Signature.Params().Len()
+					}
+					for za := 0; za <= nparams && bad == "" && nparams > 1; za++ {
+						fz := none
+						fz.last, fz.zeroArg = m, za
+						bz := base
+						bz.last, bz.zeroArg = m, za
+						of, _, wf := obsOf(fz)
+						ob, _, wb := obsOf(bz)
+						if wf != "" || wb != "" {
+							continue
+						}
+						var oks []string
+						for k := range own {
+							oks = append(oks, k)
+						}
+						sort.Strings(oks)
+						for _, k := range oks {
+							if of[k] != ob[k] {
+								what := "all arguments given"
+								if za > 0 {
+									what = fmt.Sprintf("argument %d zero", za)
+								}
+								bad = fmt.Sprintf("with %s the call leaves %s = %s on this state but %s on a fresh packet: what it sets depends on what was set before (an empty argument does not clear the earlier value)", what, k, ob[k], of[k])
+								break
+							}
 						}
 					}
 				}
@@ -739,6 +800,19 @@ func checkMultiParamMutators(p *Prog, c *Check) {
 		}
 	}
 	c.Measured["multi_parameter_mutator_states"] = n
+}
+
+// camelWords splits an exported identifier into its words (RemoveWill → Remove, Will).
+func camelWords(s string) []string {
+	var out []string
+	start := 0
+	for i := 1; i < len(s); i++ {
+		if s[i] >= 'A' && s[i] <= 'Z' && !(s[i-1] >= 'A' && s[i-1] <= 'Z') {
+			out = append(out, s[start:i])
+			start = i
+		}
+	}
+	return append(out, s[start:])
 }
 
 // checkFrameReflectsFinalState (R12.6).
